@@ -60,7 +60,14 @@ def giant_cut_cases(draw, tier):
     n = len(c['trace']['x'])
     h = F.horizon(from_json(c['formula'])) or 0
     lo = min(n - 1, max(1, h - 2))
-    c['cut'] = draw(st.sampled_from(sorted(set(min(n - 1, max(1, x)) for x in (lo, h, h + 1, h + 2, h + 5, h + 40, n - 1, n - 2, n // 2)))))
+    cuts = set(min(n - 1, max(1, x)) for x in (lo, h, h + 1, h + 2, h + 5, h + 40, n - 1, n - 2, n // 2))
+    # ... or right before / after an isolated extreme sample: the first sample that the prefix does not contain is the one
+    # a window that reaches one sample too far would pick up
+    spikes = [i for v in c['vars'] for i, x in enumerate(c['trace'][v]) if abs(x) >= 10 and h < i <= n - 1]
+    if spikes and draw(st.integers(0, 2)) > 0:
+        i = draw(st.sampled_from(spikes))
+        cuts = {i, min(n - 1, i + 1)}
+    c['cut'] = draw(st.sampled_from(sorted(cuts)))
     return c
 
 
